@@ -8,10 +8,16 @@ Rec == ndJsonDeserialize(IOEnv.TRACE)
 VARIABLES l, bad, free
 vars == <<l, bad, free>>
 
+JudgeDecodeBig(e) == LET r == DecodeV(e.args.text, e.args.nsrc, e.args.nnm) IN
+                     IF r.k = "err" THEN e.out.k = "err"
+                     ELSE IF r.k = "free" THEN e.out.k \in {"ok", "err"}
+                     ELSE e.out.k = "ok" /\ VToksEq(e.out.vtoks, r.toks)
 Judge(e) == CASE e.op = "decode" -> JudgeDecode(e.args.doc, e.out)
+              [] e.op = "decode_big" -> JudgeDecodeBig(e)
               [] OTHER -> FALSE
 
-Free(e) == e.op = "decode" /\ DocStatus(e.args.doc) = "free"
+Free(e) == \/ (e.op = "decode" /\ DocStatus(e.args.doc) = "free")
+           \/ (e.op = "decode_big" /\ DecodeV(e.args.text, e.args.nsrc, e.args.nnm).k = "free")
 
 Init == l = 1 /\ bad = <<>> /\ free = <<>>
 Next == /\ l <= Len(Rec)
